@@ -86,6 +86,11 @@ def run_compiled(ctx, n):
         envs = [{"uid": rng.choice([rng.randrange(10 ** 9), "user_%d" % rng.randrange(10 ** 6)])} for _ in range(4)]
         envs.append({"uid": ""})          # with no salt the key is the empty string: still a key
         cases.append({"prog": prog, "text": text, "envs": envs})
+    for _ in range(max(2, n // 20)):
+        # equally long return statements with different weights, reached alternately in one process
+        prog = gen.wide_program(rng, rng.choice([None, 64]))
+        envs = [{"u": rng.randrange(10 ** 9), "tier": t} for _ in range(6) for t in ("a", "b", "c")]
+        cases.append({"prog": prog, "text": gen.render(prog), "envs": envs})
     progcases.run_cases(ctx, cases, want_stages=False)
 
 
